@@ -92,10 +92,16 @@ def check(run, M, tier):
             entries.append(f)
     n_ops = len(entries)
     pub = []
-    for mn in PUBLIC_MODULES:
+    mods = list(PUBLIC_MODULES)
+    if tier == "thorough":
+        # whole package: every module that declares __all__ (mri, rf, sim, ... included)
+        mods += [mn for mn, mm in sorted(M.mods.items()) if mm.all is not None and mn not in PUBLIC_MODULES and not mm.is_pkg
+                 and mn not in ("sigpy.backend", "sigpy.pytorch", "sigpy.plot")]
+    for mn in mods:
         mod = M.mod(mn)
         if mod.all is None:
             raise AnchorMissing("__all__ of %s" % mn)
+        extra_scope = mn not in PUBLIC_MODULES
         for name in mod.all:
             q = mn + "." + name
             if q in M.funcs:
@@ -111,6 +117,14 @@ def check(run, M, tier):
         sm = eff.of(f.qual)
         arr = array_params(f)
         bad = False
+        if f.name not in ("_apply", "_prox") and f.mod.name not in PUBLIC_MODULES:
+            # thorough tier, modules outside the property's quantifier (sigpy + sigpy.mri.util): observation only
+            hits = [p for p in sorted(sm.mut) if p in arr and (f.qual, p) not in DOCUMENTED_OUT]
+            if hits:
+                run.info("outside C02's quantifier: %s modifies its array argument(s) %s in place (%s)" % (f.qual, hits, f.loc()))
+            else:
+                run.ok("M1-wide", f.qual, "no write reaches an array parameter (whole-package scan)", f.loc())
+            continue
         for p in sorted(sm.mut):
             if p not in arr:
                 continue
